@@ -563,8 +563,8 @@ Lemma sim_use {A} (f : A -> A) sb (m m' : M A) (Q : A -> store -> Prop) s :
   ext sb s -> sim f s m m' Q s -> sim f sb m m' (fun a s' => Q a s' /\ ext s s') s.
 Proof.
   unfold sim. intros E. destruct (m s) as [a s1|e s1].
-  - intros (I1 & E1 & HQ & Eq). repeat split; auto. eapply ext_trans; eauto.
-  - intros (I1 & E1 & Eq). repeat split; auto. eapply ext_trans; eauto.
+  - intros (I1 & E1 & HQ & Eq). split; [exact I1|split; [eapply ext_trans; eauto|auto]].
+  - intros (I1 & E1 & Eq). split; [exact I1|split; [eapply ext_trans; eauto|auto]].
 Qed.
 
 Lemma sim_next_choice {B} (fB : B -> B) sb (k k' : nat -> M B) (Q : B -> store -> Prop) s :
@@ -596,12 +596,23 @@ Proof.
   - eapply ext_trans; [exact E|exact E1].
 Qed.
 
+Lemma set_cs_G s v i :
+  set_cell (G s) (dv + v) (mkCell (c_wild (cell_of (G s) (dv + v))) (c_bound (cell_of (G s) (dv + v)))
+     (c_lower (cell_of (G s) (dv + v))) (c_upper (cell_of (G s) (dv + v))) (dc + i)) =
+  G (set_cell s v (mkCell (c_wild (cell_of s v)) (c_bound (cell_of s v))
+     (c_lower (cell_of s v)) (c_upper (cell_of s v)) i)).
+Proof.
+  apply (upd_cell_G (fun c => mkCell (c_wild c) (c_bound c) (c_lower c) (c_upper c) i)
+                    (fun c => mkCell (c_wild c) (c_bound c) (c_lower c) (c_upper c) (dc + i))).
+  reflexivity.
+Qed.
+
 Lemma sim_set_cs {B} (fB : B -> B) sb v i (k k' : unit -> M B) (Q : B -> store -> Prop) s :
   inv s -> ext sb s -> i < length (csets s) ->
   (forall s1, inv s1 -> ext sb s1 -> ext s s1 -> sim fB sb (k tt) (k' tt) Q s1) ->
   sim fB sb (bindM (set_cs v i) k) (bindM (set_cs (dv + v) (dc + i)) k') Q s.
 Proof.
-  intros I E Hi K. unfold set_cs, upd_cell. apply sim_modify; [apply upd_cell_G; reflexivity|].
+  intros I E Hi K. unfold set_cs, upd_cell. apply sim_modify; [apply set_cs_G|].
   assert (E1 : ext s (set_cell s v (mkCell (c_wild (cell_of s v)) (c_bound (cell_of s v))
                  (c_lower (cell_of s v)) (c_upper (cell_of s v)) i))).
   { apply ext_set_cell. cbn. auto. }
@@ -617,7 +628,7 @@ Proof.
   assert (E1 : ext s (set_cell s v (mkCell (c_wild (cell_of s v)) (c_bound (cell_of s v))
                  (c_lower (cell_of s v)) (c_upper (cell_of s v)) i))).
   { apply ext_set_cell. cbn. auto. }
-  apply sim_modify_end; [apply upd_cell_G; reflexivity|auto using inv_set_cs| |].
+  apply sim_modify_end; [apply set_cs_G|auto using inv_set_cs| |].
   - eapply ext_trans; eauto.
   - apply K; auto using inv_set_cs. eapply ext_trans; eauto.
 Qed.
@@ -646,5 +657,1062 @@ Proof.
   eapply ext_trans; [exact E|apply ext_alloc_constr].
 Qed.
 
+
+(* ------------------------------------------------------------------ *)
+(* simulation statements for the mutually recursive core                *)
+(* ------------------------------------------------------------------ *)
+Ltac sdone_ret := apply (sim_ret (fun x => x)); unfold T; auto using ext_refl.
+Ltac sdone_fail := apply sim_fail; auto using ext_refl.
+Ltac suse X := eapply sim_conseq;
+  [apply sim_use; [first [eassumption|apply ext_refl]|apply X; auto]|unfold T; auto].
+Ltac suse' X := eapply sim_conseq; [apply sim_use; [first [eassumption|apply ext_refl]|apply X]|].
+Ltac break_if := repeat match goal with |- context[if ?c then _ else _] => destruct c eqn:? end.
+
+Definition sspec_unify f := forall sub skb skw a b0 s, inv s -> sct s a -> sct s b0 ->
+  sim (fun x => x) s (unify H f sub skb skw a b0) (unify H f sub skb skw (sh a) (sh b0)) T s.
+Definition sspec_bind f := forall v t s, inv s ->
+  c_bound (cell_of s v) = None -> nb s t -> scv s v -> sct s t -> noccb s v t ->
+  sim (fun x => x) s (bind H f v t) (bind H f (dv + v) (sh t)) T s.
+Definition sspec_above f := forall v new s, inv s ->
+  (new = Top -> c_bound (cell_of s v) = None) -> scv s v ->
+  sim (fun x => x) s (above H f v new) (above H f (dv + v) new) T s.
+Definition sspec_below f := forall v new s, inv s ->
+  (new = Bottom -> c_bound (cell_of s v) = None) -> scv s v ->
+  sim (fun x => x) s (below H f v new) (below H f (dv + v) new) T s.
+Definition sspec_cc f := forall v s, inv s -> scv s v ->
+  sim (fun x => x) s (check_constraints H f v) (check_constraints H f (dv + v)) T s.
+Definition sspec_fulfill f := forall c s, inv s -> c < length (constrs s) ->
+  sim (fun x => x) s (fulfill H f c) (fulfill H f (dk + c)) T s.
+Definition sspec_minimize f := forall c s, inv s -> k_elim (constr_of s c) = true ->
+  sim (fun x => x) s (minimize H f c) (minimize H f (dk + c))
+      (fun _ s' => Forall (nb s') (constr_terms (constr_of s' c))) s.
+Definition sspec_fix f := forall pl t s, inv s -> sct s t ->
+  sim sh s (fix_ty H f pl t) (fix_ty H f pl (sh t)) (fun r s' => nb s' r /\ sct s' r) s.
+
+Definition sspecs f :=
+  sspec_unify f /\ sspec_bind f /\ sspec_above f /\ sspec_below f /\
+  sspec_cc f /\ sspec_fulfill f /\ sspec_minimize f /\ sspec_fix f.
+
+Lemma sspecs_0 : sspecs 0.
+Proof.
+  unfold sspecs, sspec_unify, sspec_bind, sspec_above, sspec_below, sspec_cc, sspec_fulfill,
+    sspec_minimize, sspec_fix.
+  repeat apply conj; intros; apply sim_fail; auto using ext_refl.
+Qed.
+
+Lemma inv_csF s i : inv s -> Forall (fun c => c < length (constrs s)) (cset_of s i).
+Proof. apply inv_cs_Forall. Qed.
+
+Lemma follow_unb s t : inv s -> nb s (follow s t).
+Proof. apply follow_unbound. Qed.
+
+Lemma scv_lt s v : scv s v -> v < length (vars s).
+Proof. intros Sv. apply Sv. reflexivity. Qed.
+Arguments scv_lt [s v] _.
+
+(* ---- check_constraints ---- *)
+Lemma cc_sstep f : sspec_fulfill f -> sspec_cc (S f).
+Proof.
+  intros F v s I Sv. rewrite !check_constraints_S. apply sim_gets.
+  rewrite cs_G by (apply scv_lt; exact Sv). rewrite cset_G. unfold shift_cset.
+  set (pending := cset_of s (c_cs (cell_of s v))).
+  assert (FP : Forall (fun c => c < length (constrs s)) pending) by (apply inv_csF; auto).
+  rewrite map_length.
+  eapply sim_bind with (fA := shks)
+    (Q1 := fun order s1 => Forall (fun c => c < length (constrs s1)) order).
+  - destruct (2 <=? length pending).
+    + apply sim_next_choice; auto using ext_refl. intros r s1 I1 E1 _ _ _ Hc.
+      rewrite permute_shift. apply sim_ret; auto. apply Forall_permute. rewrite Hc. exact FP.
+    + apply sim_ret; auto using ext_refl.
+  - intros order s1 I1 E1 FO.
+    eapply sim_conseq;
+      [apply sim_forM with (J := fun s2 => ext s1 s2) (fx := Nat.add dk); auto using ext_refl|unfold T; auto].
+    intros c s2 Hc I2 E2 E12. cbv beta.
+    assert (Lc : c < length (constrs s2)).
+    { rewrite Forall_forall in FO. specialize (FO c Hc). pose proof (ext_constrs E12). lia. }
+    eapply sim_bind_id; [apply sim_use; [exact E2|apply F; auto]|].
+    intros d s3 I3 E3 (_ & E23). destruct d.
+    + assert (Lv : v < length (vars s3)).
+      { pose proof (scv_lt Sv). pose proof (ext_vars E3). lia. }
+      apply sim_modify_end.
+      * cbv beta zeta. rewrite cs_G by exact Lv. rewrite cset_G. unfold shift_cset.
+        rewrite remove_nat_shift. apply set_cset_G.
+      * apply inv_set_cset; auto. apply Forall_remove_nat. apply inv_csF; auto.
+      * eapply ext_trans; [exact E3|apply ext_set_cset].
+      * eapply ext_trans; [exact E12|]. eapply ext_trans; [exact E23|apply ext_set_cset].
+    + sdone_ret. eapply ext_trans; eauto.
+Qed.
+
+(* ---- fix_ty ---- *)
+Lemma fix_sstep f : sspec_bind f -> sspec_fix f -> sspec_fix (S f).
+Proof.
+  intros B Fx pl t s I St. rewrite !fix_ty_S. apply sim_gets. rewrite follow_G by apply I.
+  pose proof (follow_unbound t I) as N. pose proof (follow_sct I St) as Sa.
+  destruct (follow s t) as [v|o args] eqn:Ef; cbn [shift_tyv].
+  - eapply sim_bind_id with (Q1 := T).
+    + apply sim_gets. rewrite lower_G, upper_G. destruct pl.
+      * destruct (c_lower (cell_of s v));
+          [apply (B v (O n [])); cbn; auto using sct_V, sct_O0, noccb_O0|sdone_ret].
+      * destruct (c_upper (cell_of s v));
+          [apply (B v (O n [])); cbn; auto using sct_V, sct_O0, noccb_O0|sdone_ret].
+    + intros u s1 I1 E1 _. apply sim_gets_end; [exact I1|exact E1| |].
+      * split; [apply follow_unb; auto|]. apply follow_sct; auto. eapply sct_ext; eauto.
+      * apply (follow_G s1 (V v)). apply I1.
+  - eapply sim_bind_id with (Q1 := T).
+    + apply sct_args in Sa. clear Ef N St.
+      assert (G : forall vs s1, inv s1 -> ext s s1 ->
+                sim (fun x => x) s1 ((fix go (vs : list bool) (ps : list tyv) : M unit :=
+                   match vs, ps with
+                   | v :: vs', p :: ps' =>
+                       Engine.fix_ty H f (if v then pl else negb pl) p ;;; go vs' ps'
+                   | _, _ => ret tt
+                   end) vs args)
+                   ((fix go (vs : list bool) (ps : list tyv) : M unit :=
+                   match vs, ps with
+                   | v :: vs', p :: ps' =>
+                       Engine.fix_ty H f (if v then pl else negb pl) p ;;; go vs' ps'
+                   | _, _ => ret tt
+                   end) vs (map sh args)) T s1); [|apply G; auto using ext_refl].
+      induction args as [|p ps IHp]; intros vs s1 I1 E1; destruct vs as [|b' vs]; try sdone_ret.
+      inversion Sa; subst. cbn [map].
+      eapply sim_bind with (fA := sh) (Q1 := T); [suse Fx; eapply sct_ext; eauto|]. intros r s2 I2 E2 _.
+      suse IHp. eapply ext_trans; eauto.
+    + intros u s1 I1 E1 _. apply sim_gets_end; [exact I1|exact E1| |].
+      * split; [exact Logic.I|]. apply follow_sct; auto. eapply sct_ext; eauto.
+      * apply (follow_G s1 (O o args)). apply I1.
+Qed.
+
+(* ---- above / below ---- *)
+Lemma above_sstep f : sspec_unify f -> sspec_bind f -> sspec_cc f -> sspec_above (S f).
+Proof.
+  intros U B C v new s I P Sv. rewrite !above_S. destruct (Nat.eqb new Top) eqn:Et.
+  - apply Nat.eqb_eq in Et. apply (B v (O Top [])); cbn; auto using sct_O0, noccb_O0.
+  - apply Nat.eqb_neq in Et. unfold set_wild.
+    apply sim_upd_cell; auto using ext_refl; cbn [c_lower c_upper]; try apply (inv_lo I); try apply (inv_up I).
+    intros s1 _ I1 E1 _. apply sim_gets. rewrite bound_G, !lower_G, !upper_G.
+    destruct (c_bound (cell_of s1 v)) as [t|] eqn:Eb; cbn [option_map];
+      [suse (U true false false (O new []) t); eauto using sct_O0, sct_of_bound|].
+    assert (Sv1 : scv s1 v) by (eapply scv_ext; eauto).
+    assert (SL : sim (fun x => x) s (set_lower v (Some new);;; Engine.check_constraints H f v)
+                   (set_lower (dv + v) (Some new);;; Engine.check_constraints H f (dv + v)) T s1).
+    { unfold set_lower. apply sim_upd_cell; auto; cbn [c_lower c_upper]; try apply (inv_up I1); try congruence.
+      intros s2 _ I2 E2 E12. suse C. eapply scv_ext; eauto. }
+    eapply sim_bind_id with (Q1 := T).
+    + destruct (c_upper (cell_of s1 v)), (c_lower (cell_of s1 v)); break_if;
+        try exact SL; try sdone_ret; try sdone_fail.
+    + intros u s2 I2 E2 _. apply sim_gets. rewrite bound_G, !lower_G, !upper_G.
+      destruct (c_bound (cell_of s2 v)) eqn:Eb2; cbn [option_map]; try sdone_ret.
+      destruct (c_lower (cell_of s2 v)) as [l|]; try sdone_ret.
+      destruct (c_upper (cell_of s2 v)); try sdone_ret.
+      break_if; try sdone_ret. suse (B v (O l [])); cbn; eauto using sct_O0, scv_ext, noccb_O0.
+Qed.
+
+Lemma below_sstep f : sspec_unify f -> sspec_bind f -> sspec_cc f -> sspec_below (S f).
+Proof.
+  intros U B C v new s I P Sv. rewrite !below_S. destruct (Nat.eqb new Bottom) eqn:Et.
+  - apply Nat.eqb_eq in Et. apply (B v (O Bottom [])); cbn; auto using sct_O0, noccb_O0.
+  - apply Nat.eqb_neq in Et. unfold set_wild.
+    apply sim_upd_cell; auto using ext_refl; cbn [c_lower c_upper]; try apply (inv_lo I); try apply (inv_up I).
+    intros s1 _ I1 E1 _. apply sim_gets. rewrite bound_G, !lower_G, !upper_G.
+    destruct (c_bound (cell_of s1 v)) as [t|] eqn:Eb; cbn [option_map];
+      [suse (U true false false t (O new [])); eauto using sct_O0, sct_of_bound|].
+    assert (Sv1 : scv s1 v) by (eapply scv_ext; eauto).
+    assert (SL : sim (fun x => x) s (set_upper v (Some new);;; Engine.check_constraints H f v)
+                   (set_upper (dv + v) (Some new);;; Engine.check_constraints H f (dv + v)) T s1).
+    { unfold set_upper. apply sim_upd_cell; auto; cbn [c_lower c_upper]; try apply (inv_lo I1); try congruence.
+      intros s2 _ I2 E2 E12. suse C. eapply scv_ext; eauto. }
+    eapply sim_bind_id with (Q1 := T).
+    + destruct (c_upper (cell_of s1 v)), (c_lower (cell_of s1 v)); break_if;
+        try exact SL; try sdone_ret; try sdone_fail.
+    + intros u s2 I2 E2 _. apply sim_gets. rewrite bound_G, !lower_G, !upper_G.
+      destruct (c_bound (cell_of s2 v)) eqn:Eb2; cbn [option_map]; try sdone_ret.
+      destruct (c_upper (cell_of s2 v)) as [l|]; try sdone_ret.
+      destruct (c_lower (cell_of s2 v)); try sdone_ret.
+      break_if; try sdone_ret. suse (B v (O l [])); cbn; eauto using sct_O0, scv_ext, noccb_O0.
+Qed.
+
+(* ---- minimize ---- *)
+Lemma map_snoc_sh l x : map sh l ++ [sh x] = map sh (l ++ [x]).
+Proof. rewrite map_app. reflexivity. Qed.
+
+Lemma minimize_sstep f : sspec_fix f -> sspec_minimize (S f).
+Proof.
+  intros Fx c s I Ke. rewrite !minimize_S. apply sim_gets.
+  pose proof (elim_in_range _ _ Ke) as Lc.
+  rewrite constr_G by exact Lc.
+  pose proof (scts_of_constr I Lc) as Sk. unfold constr_terms in Sk.
+  inversion Sk as [|? ? Sref Salts]; subst.
+  cbn [shift_constr k_alts k_ref].
+  eapply sim_bind with (fA := map sh) (Q1 := fun r s2 => Forall (sct s2) r).
+  - match goal with |- sim _ _ (?outer _ _) _ _ _ =>
+      assert (OL : forall objs mins s1, inv s1 -> Forall (sct s1) objs -> Forall (sct s1) mins ->
+                   sim (map sh) s1 (outer objs mins) (outer (map sh objs) (map sh mins))
+                       (fun r s2 => Forall (sct s2) r) s1) end.
+    { induction objs as [|obj rest IHo]; intros mins s1 I1 So Sm; [apply sim_ret; auto using ext_refl|].
+      cbn [map]. cbv beta iota fix. inversion So as [|? ? Sobj Srest]; subst.
+      eapply sim_bind with (fA := fun r : list tyv * bool => (map sh (fst r), snd r))
+                           (Q1 := fun r s2 => Forall (sct s2) (fst r)).
+      - match goal with |- sim _ _ (?inner _ _ _) (?inner' _ _ _) _ _ =>
+          assert (IL : forall post pre add s2, inv s2 -> sct s2 obj -> Forall (sct s2) pre ->
+                       Forall (sct s2) post ->
+                       sim (fun r : list tyv * bool => (map sh (fst r), snd r)) s2
+                           (inner pre post add) (inner' (map sh pre) (map sh post) add)
+                           (fun r s3 => Forall (sct s3) (fst r)) s2) end.
+        { induction post as [|mi post IHp]; intros pre add s2 I2 Sob Spre Spost;
+            [apply (sim_ret (fun r : list tyv * bool => (map sh (fst r), snd r))); auto using ext_refl|].
+          cbn [map]. cbv beta iota fix. inversion Spost as [|? ? Smi Spost']; subst.
+          apply sim_lift_id; auto using ext_refl; [apply match_f_G; apply I2|]. intros r1 _.
+          eapply sim_bind with (fA := sh) (Q1 := fun mi' s3 => sct s3 mi').
+          - destruct r1 as [[|]|].
+            + apply sim_gets_end; auto using ext_refl, follow_sct. apply follow_G. apply I2.
+            + apply sim_ret; auto using ext_refl.
+            + apply sim_ret; auto using ext_refl.
+          - intros mi' s3 I3 E3 Smi'.
+            apply sim_lift_id; auto; [apply match_f_G; apply I3|]. intros r2 _.
+            rewrite map_snoc_sh.
+            suse' IHp; auto.
+            + eapply sct_ext; eauto.
+            + apply Forall_snoc; auto. eapply scts_ext; eauto.
+            + eapply scts_ext; eauto.
+            + cbv beta. intros a s4 _ _ (Q4 & _). exact Q4. }
+        apply (IL mins [] true); auto.
+      - intros [mins' add] s2 I2 E2 Sm'. cbv beta. cbn [fst snd] in *. destruct add.
+        + apply sim_gets. rewrite follow_G by apply I2.
+          eapply sim_bind with (fA := sh) (Q1 := fun o' s3 => sct s3 o' /\ ext s2 s3).
+          * suse' Fx; auto.
+            -- apply follow_sct; auto. eapply sct_ext; eauto.
+            -- cbv beta. intros a s3 _ _ ((_ & Q3) & E23). auto.
+          * intros o' s3 I3 E3 (So' & E23). rewrite map_snoc_sh.
+            suse' IHo; auto.
+            -- eapply scts_ext; [|exact Srest]. exact E3.
+            -- apply Forall_snoc; auto. eapply scts_ext; eauto.
+            -- cbv beta. intros a s4 _ _ (Q4 & _). exact Q4.
+        + suse' IHo; auto.
+          * eapply scts_ext; eauto.
+          * cbv beta. intros a s4 _ _ (Q4 & _). exact Q4. }
+    apply (OL (k_alts (constr_of s c)) []); auto.
+  - intros mins s1 I1 E1 Sm. apply sim_gets. apply sim_gets.
+    rewrite follow_G, map_follow_G by apply I1. unfold upd_constr.
+    assert (Lc1 : c < length (constrs s1)) by (pose proof (ext_constrs E1); lia).
+    assert (Ke1 : k_elim (constr_of s1 c) = true) by (rewrite (ext_elim E1) by exact Lc; exact Ke).
+    apply sim_modify_end.
+    + apply (upd_constr_G
+        (fun k => mkConstr (k_elim k) (follow s1 (k_ref (constr_of s c))) (map (follow s1) mins) (k_strict k) (k_done k))
+        (fun k => mkConstr (k_elim k) (sh (follow s1 (k_ref (constr_of s c)))) (map sh (map (follow s1) mins))
+                           (k_strict k) (k_done k))).
+      reflexivity.
+    + apply inv_set_constr; auto. cbn [k_elim]. congruence.
+      unfold constr_terms. cbn [k_ref k_alts]. constructor.
+      * apply follow_sct; auto. eapply sct_ext; eauto.
+      * rewrite Forall_forall in *. intros x Hx. apply in_map_iff in Hx. destruct Hx as (y & <- & Hy).
+        apply follow_sct; auto.
+    + eapply ext_trans; [exact E1|]. apply ext_set_constr. reflexivity.
+    + rewrite constr_of_set_constr_same by exact Lc1. unfold constr_terms. cbn [k_ref k_alts].
+      constructor.
+      * apply (follow_unb _ (k_ref (constr_of s c)) I1).
+      * rewrite Forall_forall. intros x Hx. apply in_map_iff in Hx. destruct Hx as (y & <- & _).
+        apply (follow_unb _ y I1).
+Qed.
+
+(* ---- fulfill ---- *)
+Lemma norm_G s l :
+  forallb (fun t => match t with
+                    | V v => match c_bound (cell_of (G s) v) with Some _ => false | None => true end
+                    | O _ _ => true end) (map sh l) =
+  forallb (fun t => match t with
+                    | V v => match c_bound (cell_of s v) with Some _ => false | None => true end
+                    | O _ _ => true end) l.
+Proof.
+  induction l as [|[v|o args] l IH]; cbn [map forallb shift_tyv]; [reflexivity| |exact IH].
+  rewrite bound_G, IH. destruct (c_bound (cell_of s v)); reflexivity.
+Qed.
+
+Lemma alts_G s fuel ref : core s -> forall l,
+  (fix go (l : list tyv) : res (list tyv) :=
+     match l with
+     | [] => Ok []
+     | t :: r =>
+         match match_f H fuel (G s) true true (sh ref) t with
+         | Er e => Er e
+         | Ok (Some false) => go r
+         | Ok _ => match go r with Er e => Er e | Ok r' => Ok (t :: r') end
+         end
+     end) (map sh l) =
+  rmap (map sh)
+  ((fix go (l : list tyv) : res (list tyv) :=
+     match l with
+     | [] => Ok []
+     | t :: r =>
+         match match_f H fuel s true true ref t with
+         | Er e => Er e
+         | Ok (Some false) => go r
+         | Ok _ => match go r with Er e => Er e | Ok r' => Ok (t :: r') end
+         end
+     end) l).
+Proof.
+  intros C. induction l as [|t l IH]; [reflexivity|]. cbn [map]. rewrite match_f_G by exact C.
+  destruct (match_f H fuel s true true ref t) as [[[|]|]|e]; try reflexivity; try exact IH;
+    rewrite IH;
+    (destruct ((fix go (l : list tyv) : res (list tyv) := _) l); reflexivity).
+Qed.
+
+Lemma done_G s c : c < length (constrs s) -> k_done (constr_of (G s) (dk + c)) = k_done (constr_of s c).
+Proof. intros L. rewrite constr_G by exact L. reflexivity. Qed.
+
+Lemma fulfill_sstep f : sspec_unify f -> sspec_minimize f -> sspec_fulfill (S f).
+Proof.
+  intros U Mn c s I Lc. rewrite !fulfill_S. apply sim_gets. rewrite constr_G by exact Lc.
+  cbn [shift_constr k_elim k_done k_alts k_ref k_strict].
+  destruct (k_elim (constr_of s c)) eqn:Ke.
+  - destruct (k_done (constr_of s c)); [sdone_ret|].
+    eapply sim_bind_id; [apply Mn; auto|]. intros u s1 I1 E1 N1. apply sim_gets. apply sim_gets.
+    assert (Lc1 : c < length (constrs s1)) by (pose proof (ext_constrs E1); lia).
+    assert (Ke1 : k_elim (constr_of s1 c) = true) by (rewrite (ext_elim E1) by exact Lc; exact Ke).
+    rewrite constr_G by exact Lc1. rewrite constr_terms_shk, norm_G.
+    match goal with |- context[negb ?b] => assert (Hn : b = true) end.
+    { apply forallb_forall. intros x Hx. rewrite Forall_forall in N1. specialize (N1 x Hx).
+      destruct x; cbn in N1; [rewrite N1|]; reflexivity. }
+    rewrite Hn. cbn [negb].
+    pose proof (scts_of_constr I1 Lc1) as Sk1. unfold constr_terms in Sk1.
+    inversion Sk1 as [|? ? Sref1 Salts1]; subst.
+    cbn [shift_constr k_elim k_done k_alts k_ref k_strict].
+    apply sim_lift with (fA := map sh); auto.
+    { apply alts_G. apply I1. }
+    intros alts Halts.
+    assert (Salts : Forall (sct s1) alts).
+    { revert alts Halts Salts1. generalize (k_alts (constr_of s1 c)) as l.
+      induction l as [|t l IHl]; intros alts Halts Sl.
+      - inversion Halts; subst. constructor.
+      - inversion Sl as [|? ? St Sl']; subst.
+        destruct (Engine.match_f H f s1 true true (k_ref (constr_of s1 c)) t) as [[[|]|]|e'] eqn:Em;
+          try discriminate; try (apply IHl; auto; fail);
+          (destruct ((fix go (l : list tyv) : res (list tyv) := _) l) as [r'|] eqn:Eg; [|discriminate];
+           inversion Halts; subst; constructor; auto). }
+    clear Halts.
+    unfold upd_constr. apply sim_modify.
+    { apply (upd_constr_G (fun k => mkConstr true (k_ref k) alts (k_strict k) (k_done k))
+                          (fun k => mkConstr true (k_ref k) (map sh alts) (k_strict k) (k_done k))).
+      reflexivity. }
+    match goal with |- sim _ _ _ _ _ ?s' => set (s2 := s') end.
+    assert (I2 : inv s2).
+    { apply inv_set_constr; auto; [cbn; discriminate|]. unfold constr_terms. cbn [k_ref k_alts]. auto. }
+    assert (E12 : ext s1 s2) by (apply ext_set_constr; intros _; cbn; congruence).
+    assert (E2 : ext s s2) by (eapply ext_trans; eauto).
+    assert (Lc2 : c < length (constrs s2)) by (pose proof (ext_constrs E12); lia).
+    assert (Ke2 : k_elim (constr_of s2 c) = true).
+    { unfold s2. rewrite constr_of_set_constr_same by exact Lc1. reflexivity. }
+    clearbody s2.
+    destruct alts as [|t [|t2 r]]; cbn [map].
+    + sdone_fail.
+    + apply sim_modify.
+      { apply (upd_constr_G (fun k => mkConstr true (k_ref k) (k_alts k) (k_strict k) true)
+                            (fun k => mkConstr true (k_ref k) (k_alts k) (k_strict k) true)).
+        reflexivity. }
+      match goal with |- sim _ _ _ _ _ ?s' => set (s3 := s') end.
+      assert (E23 : ext s2 s3) by (apply ext_set_constr; intros _; cbn; congruence).
+      assert (I3 : inv s3).
+      { apply inv_set_constr; auto; [cbn; discriminate|]. apply (scts_of_constr I2 Lc2). }
+      assert (E3 : ext s s3) by (eapply ext_trans; eauto).
+      clearbody s3.
+      inversion Salts as [|? ? St _]; subst.
+      assert (E13 : ext s1 s3) by (eapply ext_trans; eauto).
+      eapply sim_bind_id with (Q1 := T); [suse U; eapply sct_ext; eassumption|].
+      intros u' s4 I4 E4 _. apply sim_gets.
+      rewrite done_G by (pose proof (ext_constrs E4); lia). sdone_ret.
+    + apply sim_gets. rewrite done_G by exact Lc2. sdone_ret.
+  - pose proof (inv_ar I Lc Ke) as La.
+    pose proof (scts_of_constr I Lc) as Sk. unfold constr_terms in Sk.
+    destruct (k_alts (constr_of s c)) as [|target [|]] eqn:Ea; cbn in La; try discriminate.
+    cbn [map].
+    inversion Sk as [|? ? Sref Salts]; subst. inversion Salts as [|? ? Star _]; subst.
+    eapply sim_bind_id with (Q1 := T); [suse U|]. intros u s1 I1 E1 _.
+    apply sim_lift_id; auto; [apply match_f_G; apply I1|]. intros r _.
+    assert (Lc1 : c < length (constrs s1)) by (pose proof (ext_constrs E1); lia).
+    destruct r as [[|]|]; [|sdone_fail|apply sim_gets; rewrite done_G by exact Lc1; sdone_ret].
+    eapply sim_bind_id with (Q1 := T).
+    + destruct (k_strict (constr_of s c)); [|sdone_ret].
+      apply (sim_lift_end (fun x => x)); unfold T; auto. rewrite rmap_id. apply match_f_G. apply I1.
+    + intros same s2 I2 E2 _.
+      assert (Lc2 : c < length (constrs s2)) by (pose proof (ext_constrs E2); lia).
+      destruct same as [[|]|]; [sdone_fail| |apply sim_gets; rewrite done_G by exact Lc2; sdone_ret].
+      assert (Ke2 : k_elim (constr_of s2 c) = false) by (rewrite (ext_elim E2) by exact Lc; exact Ke).
+      unfold upd_constr. apply sim_modify.
+      { apply (upd_constr_G (fun k => mkConstr false (k_ref k) (k_alts k) (k_strict k) true)
+                            (fun k => mkConstr false (k_ref k) (k_alts k) (k_strict k) true)).
+        reflexivity. }
+      apply (sim_ret (fun x => x)); unfold T; auto.
+      * apply inv_set_constr; auto.
+        -- cbn. intros _. apply (inv_ar I2); auto.
+        -- apply (scts_of_constr I2 Lc2).
+      * eapply ext_trans; [exact E2|]. apply ext_set_constr. intros _. cbn. congruence.
+Qed.
+
+(* ---- bind ---- *)
+Lemma fold_union_G s base : forall vs, Forall (fun v => v < length (vars s)) vs ->
+  fold_right (fun w acc => union (cset_of (G s) (c_cs (cell_of (G s) w))) acc) (shks base) (shv vs) =
+  shks (fold_right (fun w acc => union (cset_of s (c_cs (cell_of s w))) acc) base vs).
+Proof.
+  induction vs as [|w vs IH]; intros F; cbn [map fold_right]; [reflexivity|].
+  inversion F; subst. rewrite IH by assumption. rewrite cs_G by assumption. rewrite cset_G.
+  unfold shift_cset. apply union_shift.
+Qed.
+
+Lemma bind_sstep f : sspec_above f -> sspec_below f -> sspec_cc f -> sspec_bind (S f).
+Proof.
+  intros Ab Be C v t s I Hv Nt Sv St No. rewrite !bind_S. apply sim_gets.
+  rewrite bound_G, Hv. cbn [option_map]. rewrite ?lower_G, ?upper_G.
+  unfold set_wild.
+  apply sim_upd_cell; auto using ext_refl; cbn [c_lower c_upper]; try apply (inv_lo I); try apply (inv_up I).
+  intros s1 Es1 I1 E1 _.
+  assert (B1 : forall w, c_bound (cell_of s1 w) = c_bound (cell_of s w)).
+  { subst s1. apply bound_set_cell_same. reflexivity. }
+  assert (Hv1 : c_bound (cell_of s1 v) = None) by (rewrite B1; exact Hv).
+  assert (Nt1 : nb s1 t) by (eapply nb_bound_eq; [exact B1|exact Nt]).
+  assert (Sv1 : scv s1 v) by (eapply scv_ext; eauto).
+  assert (St1 : sct s1 t) by (eapply sct_ext; eauto).
+  assert (No1 : t <> V v -> nocc s1 v t).
+  { intros Ne. destruct (No eq_refl) as [->|N]; [congruence|].
+    eapply nocc_bound_eq; [exact B1|exact N]. }
+  clear Es1.
+  assert (SB : forall wld, let s2 := set_cell s1 v (mkCell wld (Some t) (c_lower (cell_of s1 v))
+                                  (c_upper (cell_of s1 v)) (c_cs (cell_of s1 v))) in
+               t <> V v -> inv s2 /\ ext s1 s2).
+  { intros wld s2 Ne. split.
+    - apply inv_set_cell; auto; cbn [c_lower c_upper c_bound c_cs]; try apply (inv_lo I1); try apply (inv_up I1).
+      + right. split; auto. exists t. split; [reflexivity|split; [exact Nt1|split; [exact Ne|auto]]].
+      + intros t' Ht'. inversion Ht'; subst. exact St1.
+      + intros Bt L. apply (sc_cs (proj2 I1 Bt)). exact L.
+    - apply ext_set_cell. intros t'. rewrite Hv1. discriminate. }
+  destruct t as [w|o args]; cbn [shift_tyv].
+  - rewrite eqb_shift. destruct (Nat.eqb v w) eqn:Evw; [sdone_ret|]. apply Nat.eqb_neq in Evw.
+    unfold set_bound, upd_cell. apply sim_modify.
+    { apply (upd_cell_G (fun c => mkCell (c_wild c) (Some (V w)) (c_lower c) (c_upper c) (c_cs c))
+                        (fun c => mkCell (c_wild c) (Some (V (dv + w))) (c_lower c) (c_upper c) (c_cs c))).
+      reflexivity. }
+    match goal with |- sim _ _ _ _ _ ?s' => set (s2 := s') end.
+    destruct (SB (c_wild (cell_of s1 v))) as (I2 & E12); [congruence|]. fold s2 in I2, E12.
+    assert (E2 : ext s s2) by (eapply ext_trans; eauto).
+    clearbody s2.
+    assert (Sw1 : scv s1 w) by (apply sct_V; exact St1).
+    assert (Lv2 : v < length (vars s2)) by (pose proof (scv_lt Sv1); pose proof (ext_vars E12); lia).
+    assert (Lw2 : w < length (vars s2)) by (pose proof (scv_lt Sw1); pose proof (ext_vars E12); lia).
+    apply sim_modify.
+    { cbv beta zeta. rewrite !cs_G by assumption. rewrite !cset_G. unfold shift_cset.
+      rewrite union_shift. apply set_cset_G. }
+    match goal with |- sim _ _ _ _ _ ?s' => set (s3 := s') end.
+    assert (I3 : inv s3).
+    { apply inv_set_cset; auto. apply Forall_union; apply inv_csF; auto. }
+    assert (E23 : ext s2 s3) by apply ext_set_cset.
+    assert (E3 : ext s s3) by (eapply ext_trans; [exact E2|exact E23]).
+    clearbody s3.
+    assert (Lw3 : w < length (vars s3)) by (pose proof (ext_vars E23); lia).
+    assert (Sw3 : scv s3 w) by (intros _; exact Lw3).
+    apply sim_gets. rewrite cs_G by exact Lw3.
+    apply sim_set_cs; auto. { apply (sc_cs (proj2 I3 eq_refl)). exact Lw3. }
+    intros s4 I4 E4 _.
+    apply sim_upd_cell with (g := fun c => mkCell false (c_bound c) (c_lower c) (c_upper c) (c_cs c))
+                            (g' := fun c => mkCell false (c_bound c) (c_lower c) (c_upper c) (c_cs c));
+      auto; cbn [c_lower c_upper]; try apply (inv_lo I4); try apply (inv_up I4).
+    intros s5 _ I5 E5 _.
+    assert (Sw5 : scv s5 w) by (apply sct_V; eapply sct_ext; eauto).
+    eapply sim_bind_id with (Q1 := T).
+    { destruct (c_lower (cell_of s v)) as [l|] eqn:El; [|sdone_ret].
+      suse Ab. intros ->. exfalso. eapply (inv_lo I); eauto. }
+    intros u s6 I6 E6 _.
+    eapply sim_bind_id with (Q1 := T).
+    { destruct (c_upper (cell_of s v)) as [l|] eqn:El; [|sdone_ret].
+      suse Be. intros ->. exfalso. eapply (inv_up I); eauto.
+      apply sct_V; eapply sct_ext; eauto. }
+    intros u' s7 I7 E7 _. suse C. eapply scv_ext; eauto.
+  - unfold set_bound, upd_cell. apply sim_modify.
+    { apply (upd_cell_G (fun c => mkCell (c_wild c) (Some (O o args)) (c_lower c) (c_upper c) (c_cs c))
+                        (fun c => mkCell (c_wild c) (Some (O o (map sh args))) (c_lower c) (c_upper c) (c_cs c))).
+      reflexivity. }
+    match goal with |- sim _ _ _ _ _ ?s' => set (s2 := s') end.
+    destruct (SB (c_wild (cell_of s1 v))) as (I2 & E12); [discriminate|]. fold s2 in I2, E12.
+    assert (E2 : ext s s2) by (eapply ext_trans; eauto).
+    clearbody s2.
+    assert (Lv2 : v < length (vars s2)) by (pose proof (scv_lt Sv1); pose proof (ext_vars E12); lia).
+    eapply sim_bind_id with (Q1 := T); [|intros u s3 I3 E3 _; suse C; eapply scv_ext; eauto].
+    destruct (Engine.basic H o).
+    + break_if; try sdone_fail; sdone_ret.
+    + match goal with |- context[if ?c then _ else _] => destruct c end; [sdone_fail|].
+      apply sim_lift with (fA := shv); auto.
+      { apply (vars_f_G s2 (proj1 I2) f (O o args) []). }
+      intros vs Hvs.
+      assert (Fvs : Forall (fun w => w < length (vars s2)) vs).
+      { eapply (vars_f_scope s2 (proj2 I2 eq_refl)); [| |exact Hvs]; [|constructor].
+        eapply sct_ext; [exact E12|exact St1|reflexivity]. }
+      apply sim_modify.
+      { cbv beta zeta. rewrite cs_G by exact Lv2. rewrite cset_G. unfold shift_cset.
+        rewrite fold_union_G by exact Fvs. apply set_cset_G. }
+      match goal with |- sim _ _ _ _ _ ?s' => set (s3 := s') end.
+      assert (I3 : inv s3).
+      { apply inv_set_cset; auto. apply Forall_fold_union with (g := fun w => cset_of s2 (c_cs (cell_of s2 w)));
+          intros; apply inv_csF; auto. }
+      assert (E23 : ext s2 s3) by apply ext_set_cset.
+      assert (E3 : ext s s3) by (eapply ext_trans; [exact E2|exact E23]).
+      assert (Lv3 : v < length (vars s3)) by (pose proof (ext_vars E23); lia).
+      assert (Li : c_cs (cell_of s3 v) < length (csets s3)).
+      { apply (sc_cs (proj2 I3 eq_refl)). exact Lv3. }
+      clearbody s3.
+      apply sim_gets. rewrite cs_G by exact Lv3.
+      eapply sim_conseq;
+        [apply sim_forM with (J := fun s4 => ext s3 s4) (fx := Nat.add dv); auto using ext_refl|unfold T; auto].
+      intros w s4 _ I4 E4 E34. cbv beta.
+      apply sim_set_cs_end; auto.
+      * pose proof (ext_csets E34). lia.
+      * intros s5 _ _ E45. eapply ext_trans; eauto.
+Qed.
+
+(* ---- allocation ---- *)
+Lemma fresh_list_sim n : forall s, inv s ->
+  sim (map sh) s (fresh_list n) (fresh_list n)
+     (fun fr s1 => (forall w, c_bound (cell_of s1 w) = c_bound (cell_of s w)) /\
+                   Forall (sct s1) fr /\ length fr = n /\ Forall (is_fresh s) fr) s.
+Proof.
+  induction n as [|n IH]; intros s I; cbn [fresh_list].
+  - apply (sim_ret (map sh)); auto using ext_refl.
+  - apply sim_fresh; auto using ext_refl. intros s1 Es1 I1 E1 _.
+    eapply sim_bind with (fA := map sh); [apply sim_use; [exact E1|apply IH; auto]|].
+    intros r s2 I2 E2 ((B2 & S2 & L2 & F2) & E12).
+    apply (sim_ret (map sh) _ (V (length (vars s)) :: r)); auto.
+    split; [|split; [|split]].
+    + intros w. rewrite B2. subst s1. apply alloc_var_bound.
+    + constructor; auto. apply scv_V. intros _.
+      pose proof (ext_vars E12) as Lv. subst s1. rewrite alloc_var_length in Lv. lia.
+    + cbn. lia.
+    + constructor.
+      * exists (length (vars s)). auto.
+      * eapply Forall_impl; [|exact F2]. intros t (w & -> & Lw). exists w. split; auto.
+        subst s1. rewrite alloc_var_length in Lw. lia.
+Qed.
+
+(* ---- unify ---- *)
+Lemma unify_sstep f :
+  sspec_unify f -> sspec_bind f -> sspec_above f -> sspec_below f -> sspec_unify (S f).
+Proof.
+  intros U B Ab Be sub skb skw a0 b0 s I Sa0 Sb0. rewrite !unify_S. apply sim_gets. apply sim_gets.
+  rewrite !follow_G by apply I.
+  pose proof (follow_unb _ a0 I) as Na. pose proof (follow_unb _ b0 I) as Nb.
+  pose proof (follow_sct I Sa0) as Sa. pose proof (follow_sct I Sb0) as Sb.
+  destruct (follow s a0) as [va|oa xs]; destruct (follow s b0) as [vb|ob ys]; cbn [shift_tyv].
+  - apply sim_gets. apply sim_gets. rewrite !wild_G.
+    break_if; [apply (B va (V vb)); auto using sct_V, noccb_var|sdone_ret].
+  - destruct (Nat.eqb ob Top); [sdone_ret|].
+    apply sim_lift_id; auto using ext_refl.
+    { apply (occurs_f_G H s (proj1 I) f (O ob ys) (V va)). }
+    intros oc Hoc. destruct oc; [sdone_fail|].
+    assert (No : noccb s va (O ob ys)).
+    { intros _. right. eapply occurs_false_nocc; eauto. apply I. }
+    destruct (Engine.basic H ob).
+    + apply sim_gets. rewrite wild_G.
+      break_if; [sdone_ret|apply Be; auto using sct_V|apply (B va (O ob ys)); auto using sct_V].
+    + destruct (skw || skb); [|apply (B va (O ob ys)); auto using sct_V].
+      rewrite map_length.
+      eapply sim_bind with (fA := map sh); [apply fresh_list_sim; auto|].
+      intros fr s1 I1 E1 (B1 & S1 & _ & F1).
+      eapply sim_bind_id with (Q1 := T).
+      * suse (B va (O ob fr)); [rewrite B1; auto|apply sct_V; eapply sct_ext; eauto|apply sct_O; auto|].
+        intros Bt. right. eapply nocc_fresh; eauto. apply (sct_V Sa Bt).
+      * intros u s2 I2 E2 _. suse (U sub skb skw (V va) (O ob ys)); eapply sct_ext; eauto.
+  - destruct (Nat.eqb oa Bottom); [sdone_ret|].
+    apply sim_lift_id; auto using ext_refl.
+    { apply (occurs_f_G H s (proj1 I) f (O oa xs) (V vb)). }
+    intros oc Hoc. destruct oc; [sdone_fail|].
+    assert (No : noccb s vb (O oa xs)).
+    { intros _. right. eapply occurs_false_nocc; eauto. apply I. }
+    destruct (Engine.basic H oa).
+    + apply sim_gets. rewrite wild_G.
+      break_if; [sdone_ret|apply Ab; auto using sct_V|apply (B vb (O oa xs)); auto using sct_V].
+    + destruct (skw || skb); [|apply (B vb (O oa xs)); auto using sct_V].
+      rewrite map_length.
+      eapply sim_bind with (fA := map sh); [apply fresh_list_sim; auto|].
+      intros fr s1 I1 E1 (B1 & S1 & _ & F1).
+      eapply sim_bind_id with (Q1 := T).
+      * suse (B vb (O oa fr)); [rewrite B1; auto|apply sct_V; eapply sct_ext; eauto|apply sct_O; auto|].
+        intros Bt. right. eapply nocc_fresh; eauto. apply (sct_V Sb Bt).
+      * intros u s2 I2 E2 _. suse (U sub skb skw (V vb) (V vb)); eapply sct_ext; eauto.
+  - break_if; try sdone_ret; try sdone_fail.
+    apply sct_args in Sa. apply sct_args in Sb.
+    clear Na Nb Sa0 Sb0.
+    assert (G : forall vs ys s1, inv s1 -> ext s s1 -> Forall (sct s) ys ->
+              sim (fun x => x) s1 ((fix go (vs : list bool) (xs ys : list tyv) : M unit :=
+                 match vs, xs, ys with
+                 | v :: vs', x :: xs', y :: ys' =>
+                     (if v then Engine.unify H f sub skb skw x y else Engine.unify H f sub skb skw y x) ;;;
+                     go vs' xs' ys'
+                 | _, _, _ => ret tt
+                 end) vs xs ys)
+                 ((fix go (vs : list bool) (xs ys : list tyv) : M unit :=
+                 match vs, xs, ys with
+                 | v :: vs', x :: xs', y :: ys' =>
+                     (if v then Engine.unify H f sub skb skw x y else Engine.unify H f sub skb skw y x) ;;;
+                     go vs' xs' ys'
+                 | _, _, _ => ret tt
+                 end) vs (map sh xs) (map sh ys)) T s1); [|apply G; auto using ext_refl].
+    induction xs as [|x xs IHx]; intros vs ys' s1 I1 E1 Sy; destruct vs as [|b' vs]; try sdone_ret;
+      destruct ys' as [|y ys']; try sdone_ret.
+    inversion Sa; subst. inversion Sy; subst. cbn [map].
+    eapply sim_bind_id with (Q1 := T).
+    + destruct b'; apply U; auto; eapply sct_ext; eauto.
+    + intros u s2 I2 E2 _. suse IHx. eapply ext_trans; eauto.
+Qed.
+
+(* ---- the induction on fuel ---- *)
+Theorem sspecs_all : forall f, sspecs f.
+Proof.
+  induction f as [|f (U & B & Ab & Be & C & F & Mn & Fx)]; [apply sspecs_0|].
+  unfold sspecs. repeat apply conj.
+  - apply unify_sstep; auto.
+  - apply bind_sstep; auto.
+  - apply above_sstep; auto.
+  - apply below_sstep; auto.
+  - apply cc_sstep; auto.
+  - apply fulfill_sstep; auto.
+  - apply minimize_sstep; auto.
+  - apply fix_sstep; auto.
+Qed.
+
+Lemma unify_sim f : sspec_unify f. Proof. apply sspecs_all. Qed.
+Lemma bind_sim f : sspec_bind f. Proof. apply sspecs_all. Qed.
+Lemma fulfill_sim f : sspec_fulfill f. Proof. apply sspecs_all. Qed.
+Lemma fix_sim f : sspec_fix f. Proof. apply sspecs_all. Qed.
+
+(* ---- schemas ---- *)
+Lemma nth_map_sh env i : i < length env -> nth i (map sh env) (V 0) = sh (nth i env (V 0)).
+Proof.
+  intros L. rewrite (nth_indep _ (V 0) (sh (V 0))) by (rewrite map_length; exact L). apply map_nth.
+Qed.
+
+Lemma eval_sty_sim env : forall t s, inv s -> Forall (sct s) env -> sty_wf (length env) t ->
+  sim sh s (eval_sty env t) (eval_sty (map sh env) t) (fun r s1 => sct s1 r) s.
+Proof.
+  induction t as [i| |o args IH] using sty_ind'; intros s I Se Wf; cbn [eval_sty].
+  - inversion Wf; subst.
+    apply sim_gets_end; auto using ext_refl.
+    + apply follow_sct; auto. rewrite Forall_forall in Se. apply Se. apply nth_In. auto.
+    + rewrite nth_map_sh by assumption. apply follow_G. apply I.
+  - apply sim_fresh; auto using ext_refl. intros s1 Es1 I1 E1 _.
+    apply (sim_ret sh _ (V (length (vars s)))); auto.
+    apply scv_V. intros _. subst s1. rewrite alloc_var_length. lia.
+  - eapply sim_bind with (fA := map sh) (Q1 := fun xs s1 => Forall (sct s1) xs);
+      [|intros xs s1 I1 E1 Sx; apply (sim_ret sh _ (O o xs)); auto using sct_O].
+    assert (Wa : Forall (sty_wf (length env)) args) by (inversion Wf; auto).
+    clear Wf. revert s I Se. induction IH as [|a r Ha Hr IHr]; intros s I Se;
+      [apply (sim_ret (map sh) _ []); auto using ext_refl|].
+    inversion Wa; subst.
+    eapply sim_bind with (fA := sh); [apply Ha; auto|].
+    intros x s1 I1 E1 Sx.
+    assert (Se1 : Forall (sct s1) env) by (eapply scts_ext; eauto).
+    eapply sim_bind with (fA := map sh) (Q1 := fun xs s2 => Forall (sct s2) xs /\ ext s1 s2).
+    + suse' IHr; auto; try (cbv beta; auto).
+    + intros xs s2 I2 E2 (Sxs & E12). apply (sim_ret (map sh) _ (x :: xs)); auto.
+      constructor; auto. eapply sct_ext; eauto.
+Qed.
+
+Lemma eval_sty_list_sim env : forall l s, inv s -> Forall (sct s) env ->
+  Forall (sty_wf (length env)) l ->
+  sim (map sh) s
+     ((fix go (l : list sty) : M (list tyv) :=
+           match l with
+           | [] => ret []
+           | a :: rest => x <- eval_sty env a ;; xs <- go rest ;; ret (x :: xs)
+           end) l)
+     ((fix go (l : list sty) : M (list tyv) :=
+           match l with
+           | [] => ret []
+           | a :: rest => x <- eval_sty (map sh env) a ;; xs <- go rest ;; ret (x :: xs)
+           end) l) (fun r s1 => Forall (sct s1) r) s.
+Proof.
+  induction l as [|a r IH]; intros s I Se Wl; [apply (sim_ret (map sh) _ []); auto using ext_refl|].
+  inversion Wl; subst.
+  eapply sim_bind with (fA := sh); [apply eval_sty_sim; auto|].
+  intros x s1 I1 E1 Sx.
+  assert (Se1 : Forall (sct s1) env) by (eapply scts_ext; eauto).
+  eapply sim_bind with (fA := map sh) (Q1 := fun xs s2 => Forall (sct s2) xs /\ ext s1 s2).
+  - suse' IH; auto; try (cbv beta; auto).
+  - intros xs s2 I2 E2 (Sxs & E12). apply (sim_ret (map sh) _ (x :: xs)); auto.
+    constructor; auto. eapply sct_ext; eauto.
+Qed.
+
+Lemma closure_f_scope s : inv s -> forall fuel todo seen r,
+  Forall (tsc (length (vars s))) todo -> Forall (fun v => v < length (vars s)) seen ->
+  closure_f fuel s todo seen = Ok r -> Forall (fun v => v < length (vars s)) r.
+Proof.
+  intros I. pose proof (inv_core I) as C. pose proof (inv_wsc I) as W.
+  induction fuel as [|f IH]; intros todo seen r St Ss; [cbn; discriminate|].
+  cbn [closure_f]. destruct todo as [|t rest]; [intros X; inversion X; subst; auto|].
+  inversion St as [|? ? St1 St2]; subst.
+  destruct (vars_f (S f) s t []) as [vs|e'] eqn:E; [|discriminate].
+  assert (Sv : Forall (fun v => v < length (vars s)) vs).
+  { eapply (vars_f_scope s W); [exact St1|constructor|exact E]. }
+  apply IH.
+  - apply Forall_app. split; [|exact St2].
+    rewrite Forall_forall. intros x Hx. apply in_flat_map in Hx. destruct Hx as (v & Hv & Hx).
+    apply in_flat_map in Hx. destruct Hx as (c & Hc & Hx).
+    pose proof (sc_constr W (c := c)) as F. rewrite Forall_forall in F. apply F; auto.
+    eapply (core_cs C); eauto.
+  - apply Forall_union; auto.
+    rewrite Forall_forall in *. intros x Hx. apply filter_In in Hx. apply Sv. tauto.
+Qed.
+
+Lemma sim_forM_same {A} sb (J : store -> Prop) (f f' : A -> M unit) : forall l s,
+  inv s -> ext sb s -> J s ->
+  (forall x s1, In x l -> inv s1 -> ext sb s1 -> J s1 ->
+     sim (fun u => u) sb (f x) (f' x) (fun _ s2 => J s2) s1) ->
+  sim (fun u => u) sb (forM l f) (forM l f') (fun _ s2 => J s2) s.
+Proof.
+  induction l as [|x l IH]; intros s I E HJ F; cbn [forM].
+  - apply (sim_ret (fun u => u)); auto.
+  - eapply sim_bind_id; [apply F; cbn; auto|].
+    intros u s1 I1 E1 J1. apply IH; auto. intros y s2 Hy. apply F. cbn; auto.
+Qed.
+
+Lemma new_constraint_sim fuel k s :
+  inv s -> (k_elim k = false -> length (k_alts k) = 1) -> Forall (sct s) (constr_terms k) ->
+  sim (fun x => x) s (new_constraint H fuel k) (new_constraint H fuel (shk k)) T s.
+Proof.
+  intros I A Sk. unfold new_constraint.
+  apply sim_alloc_constr; auto using ext_refl. intros s1 Es1 I1 E1 _.
+  set (c := length (constrs s)).
+  assert (Lc : c < length (constrs s1)) by (subst s1; rewrite alloc_constr_length; unfold c; lia).
+  assert (Sk1 : Forall (tsc (length (vars s1))) (constr_terms k)).
+  { rewrite Forall_forall in *. intros x Hx. eapply sct_ext; [exact E1|apply Sk; exact Hx|reflexivity]. }
+  clear Es1.
+  apply sim_lift with (fA := shv); auto.
+  { apply (closure_f_G s1 I1 fuel (constr_terms k) [] Sk1). }
+  intros vs Hvs.
+  pose proof (closure_f_scope s1 I1 fuel _ _ _ Sk1 (Forall_nil _) Hvs) as Svs.
+  apply closure_f_unbound in Hvs; auto; [|apply I1].
+  eapply sim_bind_id.
+  - apply sim_forM with (fx := Nat.add dv)
+      (J := fun s2 => (forall w, c_bound (cell_of s2 w) = c_bound (cell_of s1 w)) /\ ext s1 s2);
+      auto using ext_refl.
+    intros v s2 Hv I2 E2 (B2 & E12). cbv beta. apply sim_gets.
+    rewrite bound_G, B2. rewrite Forall_forall in Hvs. rewrite (Hvs v Hv). cbn [option_map].
+    assert (Lv : v < length (vars s2)).
+    { rewrite Forall_forall in Svs. pose proof (Svs v Hv). pose proof (ext_vars E12). lia. }
+    apply sim_modify_end.
+    + cbv beta zeta. rewrite cs_G by exact Lv. rewrite cset_G. unfold shift_cset.
+      rewrite ins_shift. apply set_cset_G.
+    + apply inv_set_cset; auto. apply Forall_ins; [|apply inv_csF; auto].
+      pose proof (ext_constrs E12). lia.
+    + eapply ext_trans; [exact E2|apply ext_set_cset].
+    + split; [exact B2|]. eapply ext_trans; [exact E12|apply ext_set_cset].
+  - intros u s2 I2 E2 (B2 & E12).
+    eapply sim_bind_id with (Q1 := T); [suse fulfill_sim; pose proof (ext_constrs E12); lia|].
+    intros d s3 I3 E3 _. sdone_ret.
+Qed.
+
+Lemma eval_constr_sim fuel env sc s : inv s -> Forall (sct s) env ->
+  sconstr_wf (length env) sc ->
+  sim (fun x => x) s (eval_constr H fuel env sc) (eval_constr H fuel (map sh env) sc) T s.
+Proof.
+  intros I Se Wf. destruct sc as [r t strict|r alts]; cbn [eval_constr].
+  - eapply sim_bind with (fA := sh); [apply eval_sty_sim; auto; apply Wf|].
+    intros r' s1 I1 E1 Sr.
+    eapply sim_bind with (fA := sh) (Q1 := fun t' s2 => sct s2 t' /\ ext s1 s2).
+    { assert (Se1 : Forall (sct s1) env) by (eapply scts_ext; eauto).
+      assert (Wt : sty_wf (length env) t) by apply Wf.
+      suse' eval_sty_sim; auto; try (cbv beta; auto). }
+    intros t' s2 I2 E2 (St & E12).
+    apply sim_gets. apply sim_gets. rewrite !follow_G by apply I2.
+    suse (new_constraint_sim fuel (mkConstr false (follow s2 r') [follow s2 t'] strict false)).
+    unfold constr_terms; cbn [k_ref k_alts].
+    constructor; [|constructor; [|constructor]]; apply follow_sct; auto.
+    eapply sct_ext; eauto.
+  - eapply sim_bind with (fA := sh); [apply eval_sty_sim; auto; apply Wf|].
+    intros r' s1 I1 E1 Sr.
+    eapply sim_bind with (fA := map sh) (Q1 := fun t' s2 => Forall (sct s2) t' /\ ext s1 s2).
+    { assert (Se1 : Forall (sct s1) env) by (eapply scts_ext; eauto).
+      assert (Wt : Forall (sty_wf (length env)) alts) by apply Wf.
+      suse' eval_sty_list_sim; auto; try (cbv beta; auto). }
+    intros alts' s2 I2 E2 (St & E12).
+    apply sim_gets. apply sim_gets. rewrite follow_G, map_follow_G by apply I2.
+    suse (new_constraint_sim fuel (mkConstr true (follow s2 r') (map (follow s2) alts') false false)).
+    { cbn. discriminate. }
+    unfold constr_terms; cbn [k_ref k_alts]. constructor.
+    + apply follow_sct; auto. eapply sct_ext; eauto.
+    + rewrite Forall_forall in *. intros x Hx. apply in_map_iff in Hx. destruct Hx as (y & <- & Hy).
+      apply follow_sct; auto.
+Qed.
+
+Lemma instance_sim fuel sc s : inv s -> schema_wf sc ->
+  sim sh s (instance H fuel sc) (instance H fuel sc) (fun r s1 => sct s1 r) s.
+Proof.
+  intros I Wf. unfold instance.
+  eapply sim_bind with (fA := map sh); [apply fresh_list_sim; auto|].
+  intros env s1 I1 E1 (_ & Se & Le & _).
+  eapply sim_bind with (fA := sh) (Q1 := fun t' s2 => sct s2 t' /\ ext s1 s2).
+  { assert (Wb : sty_wf (length env) (s_body sc)) by (rewrite Le; apply Wf).
+    suse' eval_sty_sim; auto; try (cbv beta; auto). }
+  intros body s2 I2 E2 (Sb & E12).
+  eapply sim_bind_id with (Q1 := fun _ s3 => ext s2 s3).
+  - apply sim_forM_same with (J := fun s3 => ext s2 s3); auto using ext_refl.
+    intros c s3 Hc I3 E3 E23.
+    assert (Se3 : Forall (sct s3) env).
+    { eapply scts_ext; [|exact Se]. eapply ext_trans; eauto. }
+    assert (Wc : sconstr_wf (length env) c).
+    { rewrite Le. destruct Wf as (_ & Wc). rewrite Forall_forall in Wc. auto. }
+    suse' eval_constr_sim; auto.
+    cbv beta. intros u s4 _ _ (_ & E34). eapply ext_trans; eauto.
+  - intros u s3 I3 E3 E23.
+    assert (Sb3 : sct s3 body) by (eapply sct_ext; eauto).
+    suse' fix_sim; auto.
+    cbv beta. intros r s4 _ _ ((_ & Sr) & _). exact Sr.
+Qed.
+
+Lemma is_fun_sh t : is_fun (sh t) = is_fun t.
+Proof. destruct t; reflexivity. Qed.
+
+Lemma apply_sim fuel f0 x0 fixb s : inv s -> sct s f0 -> sct s x0 ->
+  sim sh s (apply H fuel f0 x0 fixb) (apply H fuel (sh f0) (sh x0) fixb) (fun r s1 => sct s1 r) s.
+Proof.
+  intros I Sf0 Sx0. unfold apply. apply sim_gets. apply sim_gets. rewrite !follow_G by apply I.
+  pose proof (follow_unb _ f0 I) as Nf.
+  pose proof (follow_sct I Sf0) as Sf. pose proof (follow_sct I Sx0) as Sx.
+  eapply sim_bind with (fA := sh) (Q1 := fun f' s1 => sct s1 f').
+  - destruct (follow s f0) as [vf|o args]; cbn [shift_tyv];
+      [|apply (sim_ret sh _ (O o args)); auto using ext_refl].
+    apply sim_fresh; auto using ext_refl. intros s1 Es1 I1 E1 _.
+    apply sim_fresh; auto. intros s2 Es2 I2 E2 E12.
+    eapply sim_bind_id with (Q1 := T).
+    + suse (bind_sim fuel vf (O Function [V (length (vars s)); V (length (vars s1))])).
+      5:{ intros Bt. right. pose proof (sct_V Sf Bt) as Lvf.
+          apply nocc_op. intros x [<-|[<-|[]]];
+            (apply nocc_unb; [|subst s2 s1; rewrite !alloc_var_bound; rewrite cell_of_oob; [reflexivity|]]);
+            try (subst s1; rewrite alloc_var_length); try rewrite alloc_var_length; lia. }
+      * subst s2 s1. rewrite !alloc_var_bound. exact Nf.
+      * exact Logic.I.
+      * apply sct_V. eapply sct_ext; [exact E2|exact Sf].
+      * apply sct_O. constructor; [|constructor; [|constructor]]; apply scv_V; intros _.
+        -- pose proof (ext_vars E12) as L. subst s1. rewrite alloc_var_length in L. lia.
+        -- subst s2. rewrite alloc_var_length. lia.
+    + intros u s3 I3 E3 _. apply sim_gets_end; [exact I3|exact E3| |].
+      * apply follow_sct; auto. eapply sct_ext; eauto.
+      * apply (follow_G s3 (V vf)). apply I3.
+  - intros f' s1 I1 E1 Sf'.
+    destruct f' as [v|o [|lft [|rgt [|z r]]]]; cbn [shift_tyv map]; rewrite ?is_fun_sh;
+      try sdone_fail; break_if; try sdone_fail;
+      try (apply (sim_ret sh _ (O Top [])); auto using sct_O0; fail).
+    + apply sct_args in Sf'. inversion Sf' as [|? ? Sl Sr']; subst. inversion Sr' as [|? ? Sr _]; subst.
+      assert (Sx1 : sct s1 (follow s x0)) by (eapply sct_ext; eauto).
+      eapply sim_bind_id with (Q1 := fun _ s2 => ext s1 s2).
+      { suse' unify_sim; auto. cbv beta. intros ? ? ? ? (_ & ?); auto. }
+      intros u s2 I2 E2 E12.
+      assert (Sr2 : sct s2 rgt) by (eapply sct_ext; eauto).
+      suse' fix_sim; auto.
+      cbv beta. intros r s4 _ _ ((_ & Sr4) & _). exact Sr4.
+    + apply sct_args in Sf'. inversion Sf' as [|? ? Sl Sr']; subst. inversion Sr' as [|? ? Sr _]; subst.
+      assert (Sx1 : sct s1 (follow s x0)) by (eapply sct_ext; eauto).
+      eapply sim_bind_id with (Q1 := fun _ s2 => ext s1 s2).
+      { suse' unify_sim; auto. cbv beta. intros ? ? ? ? (_ & ?); auto. }
+      intros u s2 I2 E2 E12. apply (sim_ret sh _ rgt); auto. eapply sct_ext; eauto.
+Qed.
+
+(* ---- command programs ---- *)
+Definition shift_cmd (m : nat) (c : cmd) : cmd :=
+  match c with
+  | CInst sc => CInst sc
+  | CApply f x fixb => CApply (m + f) (m + x) fixb
+  | CUnify a b0 sub => CUnify (m + a) (m + b0) sub
+  | CFix a pl => CFix (m + a) pl
+  end.
+
+Lemma val_glue pre vals i : i < length vals ->
+  val (pre ++ map sh vals) (length pre + i) = sh (val vals i).
+Proof.
+  intros L. unfold val. rewrite app_nth2 by lia.
+  replace (length pre + i - length pre) with i by lia. apply nth_map_sh. exact L.
+Qed.
+
+Lemma snoc_glue (pre vals : list tyv) t :
+  (pre ++ map sh vals) ++ [sh t] = pre ++ map sh (vals ++ [t]).
+Proof. rewrite map_app, app_assoc. reflexivity. Qed.
+
+Lemma run_cmd_sim pre fuel c vals s : inv s -> Forall (sct s) vals -> cmd_wf (length vals) c ->
+  sim (fun vs => pre ++ map sh vs) s (run_cmd H fuel c vals)
+      (run_cmd H fuel (shift_cmd (length pre) c) (pre ++ map sh vals)) (vals_post true c vals) s.
+Proof.
+  intros I Sv Wf. unfold vals_post.
+  destruct c as [sc|f x fixb|a b0 sub|a pl]; cbn [run_cmd shift_cmd cmd_wf] in *.
+  - eapply sim_bind with (fA := sh); [apply instance_sim; auto|]. intros t s1 I1 E1 St.
+    rewrite snoc_glue. apply (sim_ret (fun vs => pre ++ map sh vs) _ (vals ++ [t])); auto.
+    split; [apply Forall_snoc; auto; eapply scts_ext; eauto|rewrite app_length; cbn; lia].
+  - destruct Wf as (Lf & Lx). rewrite !val_glue by assumption.
+    eapply sim_bind with (fA := sh); [apply apply_sim; auto; apply sct_val; auto|].
+    intros t s1 I1 E1 St.
+    rewrite snoc_glue. apply (sim_ret (fun vs => pre ++ map sh vs) _ (vals ++ [t])); auto.
+    split; [apply Forall_snoc; auto; eapply scts_ext; eauto|rewrite app_length; cbn; lia].
+  - destruct Wf as (La & Lb). rewrite !val_glue by assumption.
+    eapply sim_bind_id with (Q1 := T); [apply unify_sim; auto; apply sct_val; auto|].
+    intros t s1 I1 E1 _. apply (sim_ret (fun vs => pre ++ map sh vs) _ vals); auto.
+    split; auto. eapply scts_ext; eauto.
+  - rewrite !val_glue by assumption.
+    eapply sim_bind with (fA := sh); [apply fix_sim; auto; apply sct_val; auto|].
+    intros t s1 I1 E1 (_ & St).
+    rewrite snoc_glue. apply (sim_ret (fun vs => pre ++ map sh vs) _ (vals ++ [t])); auto.
+    split; [apply Forall_snoc; auto; eapply scts_ext; eauto|rewrite app_length; cbn; lia].
+Qed.
+
+Definition glue_res (pre : list tyv) (r : option (err * nat) * list tyv * store)
+  : option (err * nat) * list tyv * store :=
+  let '(e, vals, s) := r in (e, pre ++ map sh vals, G s).
+
+Theorem run_cmds_sim pre fuel : forall cs i vals s, inv s -> Forall (sct s) vals ->
+  prog_wf (length vals) cs ->
+  run_cmds H fuel (map (shift_cmd (length pre)) cs) i (pre ++ map sh vals) (G s) =
+  glue_res pre (run_cmds H fuel cs i vals s).
+Proof.
+  induction cs as [|c cs IH]; intros i vals s I Sv Wf; cbn [run_cmds map]; [reflexivity|].
+  destruct Wf as (Wc & Wr).
+  pose proof (run_cmd_sim pre fuel c vals s I Sv Wc) as K. unfold sim in K.
+  destruct (run_cmd H fuel c vals s) as [vals' s'|e s'].
+  - destruct K as (I' & E' & (Sv' & Lv') & ->).
+    apply IH; auto. rewrite Lv'. exact Wr.
+  - destruct K as (I' & E' & ->). reflexivity.
+Qed.
+
 End Sim.
 End Frame.
+
+(* ------------------------------------------------------------------ *)
+(* the exported statements                                              *)
+(* ------------------------------------------------------------------ *)
+Lemma shift_cmd_0 c : shift_cmd 0 c = c.
+Proof. destruct c; reflexivity. Qed.
+
+Lemma map_shift_cmd_0 p : map (shift_cmd 0) p = p.
+Proof. induction p as [|c p IH]; cbn [map]; [reflexivity|]. rewrite shift_cmd_0, IH. reflexivity. Qed.
+
+Lemma glue_empty s0 sc : glue s0 (empty_store sc) = mkStore (vars s0) (csets s0) (constrs s0) sc.
+Proof. unfold glue, empty_store. cbn [vars csets constrs sched map]. rewrite !app_nil_r. reflexivity. Qed.
+
+Lemma glue_empty_self s0 : glue s0 (empty_store (sched s0)) = s0.
+Proof. rewrite glue_empty. destruct s0; reflexivity. Qed.
+
+(* The main theorem.  s0 is ANY store (in particular whatever any earlier
+   history, failed or not, left behind; no invariant on s0 is needed). *)
+Theorem history : forall H fuel s0 sc prog r vals s2, prog_wf 0 prog ->
+  run_cmds H fuel prog 0 [] (empty_store sc) = (r, vals, s2) ->
+  exists s1,
+    run_cmds H fuel prog 0 [] (mkStore (vars s0) (csets s0) (constrs s0) sc)
+      = (r, map (shift_tyv (length (vars s0))) vals, s1) /\
+    Ext s0 s1 s2.
+Proof.
+  intros H fuel s0 sc prog r vals s2 Wf R. exists (glue s0 s2). split; [|apply Ext_glue].
+  pose proof (run_cmds_sim s0 H [] fuel prog 0 [] (empty_store sc) (inv_empty true sc)
+                (Forall_nil _) Wf) as K.
+  cbn [length app map] in K. rewrite map_shift_cmd_0, glue_empty, R in K. exact K.
+Qed.
+
+(* what [Ext] says about the old part: it is literally unchanged *)
+Lemma Ext_frame s0 s1 s2 : Ext s0 s1 s2 ->
+  (forall v, v < length (vars s0) -> cell_of s1 v = cell_of s0 v) /\
+  (forall i, i < length (csets s0) -> cset_of s1 i = cset_of s0 i) /\
+  (forall c, c < length (constrs s0) -> constr_of s1 c = constr_of s0 c) /\
+  length (vars s1) = length (vars s0) + length (vars s2) /\
+  length (csets s1) = length (csets s0) + length (csets s2) /\
+  length (constrs s1) = length (constrs s0) + length (constrs s2).
+Proof.
+  intros E. rewrite (Ext_is_glue _ _ _ E). repeat apply conj.
+  - intros v L. apply cell_G_old. exact L.
+  - intros i L. apply cset_G_old. exact L.
+  - intros c L. apply constr_G_old. exact L.
+  - apply len_vars_G.
+  - apply len_csets_G.
+  - apply len_constrs_G.
+Qed.
+
+(* ... and about the new part: it is the shifted image of s2 *)
+Lemma Ext_new s0 s1 s2 : Ext s0 s1 s2 ->
+  (forall v, v < length (vars s2) ->
+     cell_of s1 (length (vars s0) + v) = shift_cell (length (vars s0)) (length (csets s0)) (cell_of s2 v)) /\
+  (forall i, cset_of s1 (length (csets s0) + i) = map (Nat.add (length (constrs s0))) (cset_of s2 i)) /\
+  (forall c, c < length (constrs s2) ->
+     constr_of s1 (length (constrs s0) + c) = shift_constr (length (vars s0)) (constr_of s2 c)).
+Proof.
+  intros E. rewrite (Ext_is_glue _ _ _ E). repeat apply conj.
+  - intros v L. apply cell_G. exact L.
+  - intros i. apply cset_G.
+  - intros c L. apply constr_G. exact L.
+Qed.
+
+Theorem frame : forall H fuel s0 sc prog r vals s2, prog_wf 0 prog ->
+  run_cmds H fuel prog 0 [] (empty_store sc) = (r, vals, s2) ->
+  forall r1 vals1 s1,
+  run_cmds H fuel prog 0 [] (mkStore (vars s0) (csets s0) (constrs s0) sc) = (r1, vals1, s1) ->
+  (forall v, v < length (vars s0) -> cell_of s1 v = cell_of s0 v) /\
+  (forall i, i < length (csets s0) -> cset_of s1 i = cset_of s0 i) /\
+  (forall c, c < length (constrs s0) -> constr_of s1 c = constr_of s0 c).
+Proof.
+  intros H fuel s0 sc prog r vals s2 Wf R r1 vals1 s1 R1.
+  destruct (history H fuel s0 sc prog Wf R) as (s1' & R1' & E).
+  rewrite R1 in R1'. inversion R1'; subst.
+  destruct (Ext_frame _ _ _ E) as (a & b & c & _). auto.
+Qed.
+
+(* ---- the probe after a history ---- *)
+Lemma run_cmds_index H fuel : forall cs k i vals s,
+  run_cmds H fuel cs (k + i) vals s =
+  (let '(r, v, s') := run_cmds H fuel cs i vals s in
+   (option_map (fun p : err * nat => (fst p, k + snd p)) r, v, s')).
+Proof.
+  induction cs as [|c cs IH]; intros k i vals s; cbn [run_cmds]; [reflexivity|].
+  destruct (run_cmd H fuel c vals s) as [vals' s'|e s']; [|reflexivity].
+  rewrite <- Nat.add_succ_r. apply IH.
+Qed.
+
+Lemma run_cmds_app H fuel : forall h q i vals s,
+  run_cmds H fuel (h ++ q) i vals s =
+  match run_cmds H fuel h i vals s with
+  | (None, v, s') => run_cmds H fuel q (i + length h) v s'
+  | (Some e, v, s') => (Some e, v, s')
+  end.
+Proof.
+  induction h as [|c h IH]; intros q i vals s; cbn [app run_cmds length].
+  - rewrite Nat.add_0_r. reflexivity.
+  - destruct (run_cmd H fuel c vals s) as [vals' s'|e s']; [|reflexivity].
+    rewrite IH. rewrite Nat.add_succ_r. reflexivity.
+Qed.
+
+(* the history h has been run (successfully or not) and left s0; the probe p
+   run in s0 gives the shifted image of p run alone, with the same error *)
+Theorem probe_after_history : forall H fuelh fuel sch h p rh vh s0 r vals s2,
+  prog_wf 0 h -> prog_wf 0 p ->
+  run_cmds H fuelh h 0 [] (empty_store sch) = (rh, vh, s0) ->
+  run_cmds H fuel p 0 [] (empty_store (sched s0)) = (r, vals, s2) ->
+  exists s1,
+    run_cmds H fuel p 0 [] s0 = (r, map (shift_tyv (length (vars s0))) vals, s1) /\
+    Ext s0 s1 s2 /\ inv s0.
+Proof.
+  intros H fuelh fuel sch h p rh vh s0 r vals s2 Wh Wp Rh Rp.
+  destruct (history H fuel s0 (sched s0) p Wp Rp) as (s1 & R1 & E).
+  exists s1. split; [|split; [exact E|]].
+  - replace (mkStore (vars s0) (csets s0) (constrs s0) (sched s0)) with s0 in R1 by (destruct s0; reflexivity).
+    exact R1.
+  - apply (engine_inv H fuelh sch h Wh Rh).
+Qed.
+
+(* the same inside one program: h followed by p (p's value indices moved
+   past the values of h) *)
+Theorem probe_in_program : forall H fuel sch h p vh s0 r vals s2,
+  prog_wf 0 h -> prog_wf 0 p ->
+  run_cmds H fuel h 0 [] (empty_store sch) = (None, vh, s0) ->
+  run_cmds H fuel p 0 [] (empty_store (sched s0)) = (r, vals, s2) ->
+  exists s1,
+    run_cmds H fuel (h ++ map (shift_cmd (length vh)) p) 0 [] (empty_store sch)
+      = (option_map (fun e : err * nat => (fst e, length h + snd e)) r,
+         vh ++ map (shift_tyv (length (vars s0))) vals, s1) /\
+    Ext s0 s1 s2.
+Proof.
+  intros H fuel sch h p vh s0 r vals s2 Wh Wp Rh Rp.
+  exists (glue s0 s2). split; [|apply Ext_glue].
+  rewrite run_cmds_app, Rh. cbn [Nat.add].
+  pose proof (run_cmds_sim s0 H vh fuel p (length h) [] (empty_store (sched s0))
+                (inv_empty true _) (Forall_nil _) Wp) as K.
+  cbn [map] in K. rewrite app_nil_r, glue_empty_self in K. rewrite K.
+  replace (length h) with (length h + 0) at 1 by lia.
+  rewrite run_cmds_index, Rp. reflexivity.
+Qed.
